@@ -18,7 +18,7 @@ INVS = ["NodeContracts", "EdgeExact", "SiblingOrder", "MetadataFlat", "RcBalance
 # which property a rejected clause speaks about (plain traces); failure traces all belong to C16
 CLAUSE_PROP = {
     "deliveries": "C01", "emissions": "C01", "node_state": "C01", "links": "C01",
-    "deliveries_md": "C10", "emissions_md": "C10",
+    "deliveries_md": "C10", "emissions_md": "C10", "callbacks_early": "C04",
     "NodeContracts": "C01", "EdgeExact": "C01", "SiblingOrder": "C01",
     "MetadataFlat": "C10",
     "refcounts": "C05", "callbacks": "C05", "RcBalanced": "C05", "RcNonNegative": "C05",
